@@ -61,7 +61,10 @@ def parseOp (s : String) : POp :=
   match s.splitOn "|" with
   | ["ing", ns, name, uid, ts, gen, ann, cls, valid, typ, chal, rules] =>
     let k := if typ == "M" then IngKind.master else if typ == "m" then IngKind.minion else IngKind.regular
-    .op (.ing { md := mkMeta ns name uid ts gen (unq ann), kind := k, chal := chal == "1", rules := parseRules rules } (clsIng cls) (valid == "1"))
+    -- the class designators `a` / `b` put the deprecated class annotation on the object: it is part of the annotation map
+    -- that IsEqual compares (the suffix after '#' is not printed by `snap`)
+    let clsAnn := if cls == "a" then "#nginx" else if cls == "b" then "#other" else ""
+    .op (.ing { md := mkMeta ns name uid ts gen (unq ann ++ clsAnn), kind := k, chal := chal == "1", rules := parseRules rules } (clsIng cls) (valid == "1"))
   | ["vs", ns, name, uid, ts, gen, cls, valid, host, routes, lh, ls] =>
     let rts := (splitOn routes "&").map fun r => match r.splitOn ">" with
       | [p, ref] => (p, unq ref) | _ => ("", "")
@@ -92,7 +95,7 @@ def snap : Res → String
   | .ing c =>
     let mins := c.minions.map fun m => s!"{m.md.key}@g{m.md.gen}({boolMap m.validPaths})"
     let cw := c.childWarnings.filterMap fun (k, ws) => if ws.isEmpty then none else some s!"{k}({codes ws})"
-    s!"Ingress/{c.md.key}\{g{c.md.gen}!a{c.md.ann}!M{b01 c.isMaster}!vh:{boolMap c.validHosts}!min:{joinWith "+" mins}!w:{codes c.warnings}!cw:{joinWith "+" cw}}"
+    s!"Ingress/{c.md.key}\{g{c.md.gen}!a{(c.md.ann.splitOn "#").headD ""}!M{b01 c.isMaster}!vh:{boolMap c.validHosts}!min:{joinWith "+" mins}!w:{codes c.warnings}!cw:{joinWith "+" cw}}"
   | .vs c =>
     let vsrs := c.vsrs.map fun v => s!"{v.key}@g{v.gen}"
     s!"VirtualServer/{c.md.key}\{g{c.md.gen}!h:{c.host}!vsr:{joinWith "+" vsrs}!p:{c.httpPort}/{c.httpsPort}!ip:{c.httpV4},{c.httpV6},{c.httpsV4},{c.httpsV6}!w:{codes c.warnings}}"
